@@ -194,7 +194,7 @@ func init() {
 				Thorough: grid([]string{"M", "P", "n"}, []int{3, 5, 8}, []int{1, 2, 3}, []int{3, 4})},
 			{Name: "C02_cycle_canary", Role: "canary",
 				Quick:    []Params{{"M": 3, "P": 1, "n": 2}},
-				Thorough: []Params{{"M": 3, "P": 1, "n": 2}, {"M": 4, "P": 2, "n": 3}}},
+				Thorough: []Params{{"M": 3, "P": 1, "n": 2}, {"M": 4, "P": 2, "n": 2}}},
 			{Name: "C02_run", Expect: []string{"end", "result-is-alive-flag"}, TerminationClaim: true,
 				Quick:    grid([]string{"M", "P", "n", "maxCycles"}, []int{3}, []int{1, 2}, []int{1, 2}, []int{1, 2, 3}),
 				Thorough: append(append(grid([]string{"M", "P", "n", "maxCycles"}, []int{3, 4}, []int{1, 2}, []int{1}, []int{1, 2, 3, 4, 5}),
@@ -210,7 +210,7 @@ func init() {
 			{Name: "C13_sequence", Expect: []string{"end"}, TerminationClaim: true, Witnesses: 4,
 				Quick:    []Params{{"M": 3, "P": 1, "L": 2, "maxCycles": 2}, {"M": 3, "P": 2, "L": 2, "maxCycles": 1}, {"M": 3, "P": 2, "L": 1, "maxCycles": 2, "prefix": 1}},
 				Thorough: []Params{{"M": 3, "P": 1, "L": 2, "maxCycles": 2}, {"M": 3, "P": 2, "L": 2, "maxCycles": 1}, {"M": 3, "P": 2, "L": 1, "maxCycles": 2, "prefix": 1},
-					{"M": 4, "P": 2, "L": 2, "maxCycles": 2}, {"M": 3, "P": 2, "L": 2, "maxCycles": 2, "prefix": 1}, {"M": 3, "P": 1, "L": 2, "maxCycles": 2, "prefix": 2}}},
+					{"M": 4, "P": 2, "L": 2, "maxCycles": 2}, {"M": 4, "P": 1, "L": 2, "maxCycles": 3}, {"M": 3, "P": 1, "L": 1, "maxCycles": 2, "prefix": 2}, {"M": 4, "P": 2, "L": 1, "maxCycles": 2, "prefix": 1}}},
 			{Name: "C13_inapplicable", Expect: []string{"end"}, TerminationClaim: true, Witnesses: 2,
 				Quick:    grid([]string{"M", "P", "n", "maxCycles", "run"}, []int{3}, []int{1, 2}, []int{0, 1, 2}, []int{2}, []int{0, 1}),
 				Thorough: grid([]string{"M", "P", "n", "maxCycles", "run"}, []int{3, 4}, []int{1, 2}, []int{0, 1, 2, 3}, []int{1, 3}, []int{0, 1})},
@@ -221,7 +221,7 @@ func init() {
 				Quick:    grid([]string{"M", "P", "n", "steps", "maxCycles", "codelen"}, []int{3}, []int{1, 2}, []int{1, 2}, []int{0, 1}, []int{2}, []int{1, 2}),
 				Thorough: grid([]string{"M", "P", "n", "steps", "maxCycles", "codelen"}, []int{3, 4}, []int{1, 2}, []int{1, 2}, []int{0, 1, 2}, []int{3}, []int{1, 2})},
 		},
-		Outside: []string{"sequences longer than the listed depth (2 calls from a fresh simulator, or 1..2 calls after a prefix of 1..2 spawned warriors; depth 3 did not finish within the time budget)", "cores other than 3..4 cells", "sampling beyond the exhaustive depth is not done (solver-based only)"},
+		Outside: []string{"sequences longer than the listed depth (2 calls from a fresh simulator, or 1 call after a prefix of 1..2 spawned warriors; depth 3, and depth 2 after a prefix, did not finish within the time budget)", "cores other than 3..4 cells", "sampling beyond the exhaustive depth is not done (solver-based only)"},
 	})
 
 	Properties = append(Properties, &PropertySpec{
@@ -315,7 +315,8 @@ func init() {
 		Harnesses: []HarnessSpec{
 			{Name: "C08_family", Expect: []string{"end", "for-equals-unrolled"}, Witnesses: 8,
 				Quick:    append(grid([]string{"maxCount", "nested", "second"}, []int{2}, []int{0, 1}, []int{0, 1}), Params{"maxCount": 2, "nested": 2, "second": 0}),
-				Thorough: append(grid([]string{"maxCount", "nested", "second"}, []int{3}, []int{0, 1}, []int{0, 1}), Params{"maxCount": 2, "nested": 2, "second": 0}, Params{"maxCount": 2, "nested": 2, "second": 1})},
+				Thorough: append(grid([]string{"maxCount", "nested", "second"}, []int{3}, []int{0, 1}, []int{0}), Params{"maxCount": 3, "nested": 0, "second": 1}, Params{"maxCount": 2, "nested": 1, "second": 1},
+					Params{"maxCount": 2, "nested": 2, "second": 0}, Params{"maxCount": 2, "nested": 2, "second": 1})},
 			{Name: "C08_sequence", Expect: []string{"end"}, Witnesses: 1,
 				Quick:    grid([]string{"blocks"}, []int{1, 3, 12}),
 				Thorough: grid([]string{"blocks"}, []int{1, 3, 7, 12})},
@@ -403,7 +404,7 @@ func init() {
 		Harnesses: []HarnessSpec{
 			{Name: "C17_main", WithCmd: true, Expect: []string{"end", "stdout-equals-tallies"}, Witnesses: 6,
 				Quick:    append(grid([]string{"warriors", "use88", "preset", "fixed", "maxRounds"}, []int{1, 2}, []int{0, 1}, []int{0}, []int{0, 9}, []int{2}), append(grid([]string{"warriors", "use88", "preset", "fixed", "maxRounds"}, []int{2}, []int{0, 1}, []int{0}, []int{4, 11}, []int{2}), Params{"warriors": 2, "use88": 0, "preset": 1, "fixed": 30, "maxRounds": 1})...),
-				Thorough: append(grid([]string{"warriors", "use88", "preset", "fixed", "maxRounds"}, []int{1, 2}, []int{0, 1}, []int{0}, []int{0, 4, 5, 8, 9, 11, 12}, []int{3}), grid([]string{"warriors", "use88", "preset", "fixed", "maxRounds"}, []int{1, 2}, []int{0}, []int{1}, []int{0, 30}, []int{2})...)},
+				Thorough: append(grid([]string{"warriors", "use88", "preset", "fixed", "maxRounds"}, []int{1, 2}, []int{0, 1}, []int{0}, []int{0, 4, 5, 8, 9, 11, 12}, []int{3}), grid([]string{"warriors", "use88", "preset", "fixed", "maxRounds"}, []int{1, 2}, []int{0}, []int{1}, []int{30, 70}, []int{2})...)},
 		},
 	})
 }
